@@ -144,7 +144,9 @@ func (s *Signature) decodeTimeAndTimeZone(b []byte) {
 	if err1 != nil || err2 != nil {
 		return
 	}
-	if tzhours < 0 {
+	// Test the sign character, not the parsed hours: "-0030" has
+	// tzhours == 0 but is still west of UTC.
+	if timezone[0] == '-' {
 		tzmins *= -1
 	}
 
